@@ -1554,11 +1554,11 @@ Cython's ZeroDivisionError — reading *which* extremes enter from the generated
 namespace Pyunicorn.Access
 open Pyunicorn.Generated.StructC20Py
 
-/-- the conversion executed for a sample is defined when the scaling is not negative and `range_min`
-is a lower bound of the sample (or one of them is NaN) -/
-theorem convOKX_of (s m x : XR) (nb : Int) (hnb : 1 ≤ nb) (hb : nb ≤ (2 : Int) ^ (32 - 1))
-    (hs : s.notNeg = true)
-    (hmx : m.isNan = true ∨ x.isNan = true ∨ XR.le m x = true) : convOKX 32 s m nb x = true := by
+/-- the conversion executed for a sample (to a signed integer of any width `bits`) is defined when the
+scaling is not negative and `range_min` is a lower bound of the sample (or one of them is NaN) -/
+theorem convOKX_of_bits (bits : Nat) (s m x : XR) (nb : Int) (hnb : 1 ≤ nb)
+    (hb : nb ≤ (2 : Int) ^ (bits - 1)) (hs : s.notNeg = true)
+    (hmx : m.isNan = true ∨ x.isNan = true ∨ XR.le m x = true) : convOKX bits s m nb x = true := by
   have hr : (XR.mul s (XR.sub x m)).notNeg = true :=
     XR.mul_notNeg _ _ hs (XR.sub_notNeg m x hmx)
   unfold convOKX
@@ -1578,6 +1578,13 @@ theorem convOKX_of (s m x : XR) (nb : Int) (hnb : 1 ≤ nb) (hb : nb ≤ (2 : In
       · calc q * (nb : Rat) < 1 * (nb : Rat) := Rat.mul_lt_mul_of_pos_right hlt hnbpos
           _ = nb := by simp
     · rfl
+
+/-- the conversion executed for a sample is defined when the scaling is not negative and `range_min`
+is a lower bound of the sample (or one of them is NaN) -/
+theorem convOKX_of (s m x : XR) (nb : Int) (hnb : 1 ≤ nb) (hb : nb ≤ (2 : Int) ^ (32 - 1))
+    (hs : s.notNeg = true)
+    (hmx : m.isNan = true ∨ x.isNan = true ∨ XR.le m x = true) : convOKX 32 s m nb x = true :=
+  convOKX_of_bits 32 s m x nb hnb hb hs hmx
 
 /-- **The kernel on IEEE data, for every scaling and range_min of the right kind.**  For all shapes,
 `1 ≤ n_bins < 2^31`, every `scaling` that is not negative (`≥ 0`, `+inf`, NaN — this covers
@@ -1724,5 +1731,151 @@ theorem tmiCallX_witness :
         1 2 1 2 4 [[.fin 0, .fin 1]] [[.ninf, .fin 1]] = .oob
     ∧ tmiKernelX (.fin 1) (.fin 0) 1 2 4 [[.fin 0, .fin 1]] [[.ninf, .fin 1]] = .oob := by
   decide +kernel
+
+end Pyunicorn.Access
+
+/-! ## Round 5, second part: the IEEE model restricted to NaN | finite data is the round-1 model,
+and the range "over both arrays" is what the source's two-step computation yields -/
+namespace Pyunicorn.Access
+open Pyunicorn.Generated.StructC20Py
+
+/-- for non-empty arrays the range the wrapper computes from the generated terms
+(`np.min((original_data.min(), surrogates.min()))`, …) is the minimum / maximum over the
+concatenation of both arrays — for **all** data (round 4: shown on witness data only) -/
+theorem rangeFrom_generated (dO dS : Data) (hO : dO.flat ≠ []) (hS : dS.flat ≠ []) :
+    rangeFrom dO dS tmi_range_min.2 tmi_range_max.2
+      = (optMin (dO.flat ++ dS.flat), optMax (dO.flat ++ dS.flat)) := by
+  rw [optMin_append _ _ hO hS, optMax_append _ _ hO hS]
+  rfl
+
+/-- `tmiCall` is the kernel verdict for the range read off the generated terms (after the wrapper's
+rejections) — `tmiCall_eq_kernelVerdict` with the source's own range computation in place of
+"minimum over both arrays" -/
+theorem tmiCall_range_from_source (N T : Nat) (nb : Int) (dO dS : Data) (h1 : 1 ≤ nb)
+    (h2 : nb < (2 : Int) ^ 31) (h3 : N * T ≠ 0) (hO : dO.flat ≠ []) (hS : dS.flat ≠ []) :
+    tmiCall N T N T nb dO dS
+      = tmiKernelVerdict (rangeFrom dO dS tmi_range_min.2 tmi_range_max.2).1
+          (rangeFrom dO dS tmi_range_min.2 tmi_range_max.2).2 N T nb dO dS := by
+  rw [rangeFrom_generated dO dS hO hS]
+  exact tmiCall_eq_kernelVerdict N T nb dO dS h1 h2 h3
+
+/-- **`tmiCallX` on arrays without infinities is `tmiCall`** (all shapes, all `n_bins`, all NaN |
+finite data in non-empty arrays), with the range terms and the scaling expression of the current
+source.  So the round-1 theorem `tmiCall_rejects_or_safe` is the special case of
+`tmiCallX_rejects_or_safe`, and every correspondence run of `call tmi` also ties `tmiCallX`. -/
+theorem tmiCallX_restricts_to_tmiCall (N T N2 T2 : Nat) (nb : Int) (dO dS : Data)
+    (hO : dO.flat ≠ []) (hS : dS.flat ≠ []) :
+    tmiCallX tmi_range_min tmi_range_max tmi_scaling N T N2 T2 nb dO.toX dS.toX
+      = tmiCall N T N2 T2 nb dO dS :=
+  tmiCallX_toX tmi_range_min tmi_range_max rfl rfl N T N2 T2 nb dO dS hO hS
+
+example : tmiCallX tmi_range_min tmi_range_max tmi_scaling 1 2 1 2 2
+    (Data.toX [[some 0, some 1]]) (Data.toX [[some 1, none]]) = .safe := by decide +kernel
+
+end Pyunicorn.Access
+
+/-! ## Round 5, third part: the climate kernel on IEEE data; the two surrogate tests with the shape
+tests and size sources of the current source as parameters -/
+namespace Pyunicorn.Access
+open Pyunicorn.Generated.StructC20Py
+
+/-- **`_mutual_information` (climate) on IEEE data**: for all shapes, `1 ≤ n_bins < 2^31`, every
+`float scaling` that is not negative and every `float range_min` that is NaN or a lower bound of all
+non-NaN samples: every `(long)` conversion is defined and every access lies inside the arrays the
+wrapper allocates.  (Tied by the real traces `tracex mi` on data with `±inf` / NaN.) -/
+theorem miKernelX_safe (s m : XR) (N T : Nat) (nb : Int) (d : XData)
+    (hnb : 1 ≤ nb) (hbig : nb < (2 : Int) ^ 31) (hs : s.notNeg = true)
+    (hm : m.isNan = true ∨ ∀ x ∈ d.flatten, x.isNan = true ∨ XR.le m x = true) :
+    miKernelX s m N T nb d = .safe := by
+  have hb64 : nb ≤ (2 : Int) ^ (64 - 1) := by
+    have : (2 : Int) ^ 31 ≤ (2 : Int) ^ (64 - 1) := by decide
+    omega
+  have hcast : ((nb.toNat : Nat) : Int) = nb := Int.toNat_of_nonneg (by omega)
+  have hmx : ∀ i k, m.isNan = true ∨ (d.at i k).isNan = true ∨ XR.le m (d.at i k) = true := by
+    intro i k
+    rcases hm with h | h
+    · exact Or.inl h
+    · rcases XData.at_mem d i k with hn | hmem
+      · exact Or.inr (Or.inl hn)
+      · rcases h _ hmem with h' | h'
+        · exact Or.inr (Or.inl h')
+        · exact Or.inr (Or.inr h')
+  have conv : convsOKX 64 N T s m nb d.at = true := by
+    simp only [convsOKX, List.all_eq_true, List.mem_range]
+    intro i _ k _
+    exact convOKX_of_bits 64 s m _ nb hnb hb64 hs (hmx i k)
+  unfold miKernelX
+  rw [conv]
+  simp only [if_true]
+  apply verdictOf_ne_oob
+  apply mi_in_bounds
+  intro i k _ _
+  obtain ⟨v, hv, h0, h1⟩ := symbolX_in_range s m (d.at i k) nb hnb hs (hmx i k)
+  rw [hv, hcast]
+  exact ⟨h0, h1⟩
+
+example : miKernelX (.fin 0) .ninf 2 2 4 [[.fin 0, .pinf], [.ninf, .nan]] = .safe
+    ∧ miKernelX (.fin 1) (.fin 0) 2 2 4 [[.fin 0, .pinf], [.ninf, .nan]] = .oob := by decide +kernel
+
+/-- with the shape test and size sources of the current source, `pearsonObjCall` is `pearsonCall` -/
+theorem pearsonObjCall_generated (N T N2 T2 : Nat) :
+    pearsonObjCall pearson_pysizes pearson_pychecks N T N2 T2 = pearsonCall N T N2 T2 := by
+  unfold pearsonObjCall pearsonCall pyFront
+  by_cases h : (N2, T2) = (N, T)
+  · obtain ⟨rfl, rfl⟩ := Prod.mk.inj h
+    simp [pearson_pychecks, pearson_pysizes, resolveSize, pearsonSizes]
+  · have h' : ¬ (N2 = N ∧ T2 = T) := fun ⟨a, b⟩ => h (by rw [a, b])
+    simp [pearson_pychecks, h, h']
+
+/-- `Surrogates.test_pearson_correlation`, shape test and size sources as generated: safe or raises
+for all shapes of both arrays -/
+theorem pearsonObjCall_rejects_or_safe (N T N2 T2 : Nat) :
+    pearsonObjCall pearson_pysizes pearson_pychecks N T N2 T2 ≠ .oob := by
+  rw [pearsonObjCall_generated]; exact pearsonCall_rejects_or_safe N T N2 T2
+
+/-- a method that takes the sizes from the surrogates and tests nothing (the core of seeded change
+C20-8) reads past a shorter original; one that takes them from the original and tests nothing reads
+past shorter surrogates (the pinned defect) -/
+theorem pearsonObjCall_witness :
+    pearsonObjCall [("N", "arr", "surrogates.0", 1, 0), ("n_time", "arr", "surrogates.1", 1, 1)] []
+        3 5 3 9 = .oob
+    ∧ pearsonObjCall pearson_pysizes [] 3 5 2 3 = .oob
+    ∧ pearsonObjCall pearson_pysizes pearson_pychecks 3 5 3 9 = .raise
+    ∧ pearsonObjCall pearson_pysizes pearson_pychecks 3 5 3 5 = .safe := by decide +kernel
+
+/-- **`Surrogates.test_mutual_information` with every part the translator reads as a parameter**
+(shape test, size sources, range terms, scaling expression — all as they are in the current
+source): safe or raises for all shapes of both arrays, all `n_bins ∈ ℤ`, all IEEE data -/
+theorem tmiObjCallX_rejects_or_safe (N T N2 T2 : Nat) (nb : Int) (dO dS : XData) :
+    tmiObjCallX tmi_pysizes tmi_pychecks tmi_range_min tmi_range_max tmi_scaling N T N2 T2 nb dO dS
+      ≠ .oob := by
+  unfold tmiObjCallX
+  split
+  · simp
+  by_cases h : (N2, T2) = (N, T)
+  · obtain ⟨rfl, rfl⟩ := Prod.mk.inj h
+    have : pyFront tmi_pysizes tmi_pychecks "N" "n_time" [[N2, T2], [N2, T2]] = .sizes N2 T2 := by
+      simp [pyFront, tmi_pychecks, tmi_pysizes, resolveSize]
+    rw [this]
+    simp only [and_self, if_true]
+    exact tmiCallX_rejects_or_safe N2 T2 N2 T2 nb dO dS
+  · have h' : ¬ (N2 = N ∧ T2 = T) := fun ⟨a, b⟩ => h (by rw [a, b])
+    have : pyFront tmi_pysizes tmi_pychecks "N" "n_time" [[N, T], [N2, T2]] = .raise := by
+      simp [pyFront, tmi_pychecks, h']
+    rw [this]
+    simp
+
+/-- sharpness: without the shape test, or with the sizes taken from the longer surrogates, the
+kernel leaves the shorter array -/
+theorem tmiObjCallX_witness :
+    tmiObjCallX tmi_pysizes [] tmi_range_min tmi_range_max tmi_scaling 1 4 1 2 2
+        [[.fin 0, .fin 1, .pinf, .fin 1]] [[.fin 0, .ninf]] = .oob
+    ∧ tmiObjCallX [("N", "arr", "surrogates.0", 1, 0), ("n_time", "arr", "surrogates.1", 1, 1)] []
+        tmi_range_min tmi_range_max tmi_scaling 1 2 1 4 2
+        [[.fin 0, .fin 1]] [[.fin 0, .fin 1, .nan, .fin 1]] = .oob
+    ∧ tmiObjCallX tmi_pysizes tmi_pychecks tmi_range_min tmi_range_max tmi_scaling 1 4 1 2 2
+        [[.fin 0, .fin 1, .pinf, .fin 1]] [[.fin 0, .ninf]] = .raise
+    ∧ tmiObjCallX tmi_pysizes tmi_pychecks tmi_range_min tmi_range_max tmi_scaling 1 2 1 2 2
+        [[.fin 0, .pinf]] [[.fin 0, .ninf]] = .safe := by decide +kernel
 
 end Pyunicorn.Access
